@@ -56,6 +56,7 @@ XF = {None: 'XCamel', 'CAMEL': 'XCamel', 'PASCAL': 'XPascal', 'LISP': 'XLisp', '
 ROOTS = [[], ['JSONWizard'], ['JSONWizard', 'JSONFileWizard'], ['YAMLWizard'], ['TOMLWizard']]
 C01_LEAVES = [l for l in LEAVES if l not in ('bytes', 'bytearray')]
 F3 = 'F3-neg-timedelta'
+F56 = 'F56-defaultdict-pep604-union-value'
 
 
 def eff_xf(c):
@@ -290,6 +291,8 @@ def run(ctx):
         if bad:
             if f3 and ctx.is_open_region(F3) and res.get('leaf_bad') == ['timedelta']:
                 ctx.hist('known_region', F3)
+            elif res.get('f56') and ctx.is_open_region(F56) and all('TypeError' in b for b in bad):
+                ctx.hist('known_region', F56)
             elif kflag == '0' and not c.get('canonical_names') and eff_xf(c) != 'NONE':
                 # non-canonical field names whose dumped spelling does not resolve back IN THE MODEL (keys_ok = false):
                 # outside the property's quantifier (canonical names, or NONE for any identifier)
@@ -300,6 +303,9 @@ def run(ctx):
             # a leaf law the theorem assumes is false on this value although the round trip happens to work
             ctx.notes.append('leaf law false outside F3 on %s' % res['leaf_bad'])
         m = model.get((i, 'rt'))
+        if res.get('f56'):
+            m = None
+            ctx.hist('model_skipped', 'F56 region')
         if m is not None and 'show_x' in res:
             if m.startswith('!U') or m.startswith('!M'):
                 n_skip += 1
